@@ -255,6 +255,11 @@ def rule_r8(chk, p, t):
     C04.rule_r5(chk, p, t, rid="C11.R9")
     # ... whose argument is (year, day of year): the calendar tables behind dayOfYear (shared instance of C04.R6)
     C04.rule_r6(chk, p, t, rid="C11.R10")
+    # the ground dynamics recover their start datetime from the start Julian date: the conversions must not consult the
+    # host's time zone (shared instance of C05.R10)
+    from rules import C05
+
+    C05.rule_r10(chk, p, t, rid="C11.R11")
 
 
 def run(chk, p, t):
